@@ -77,6 +77,9 @@ type Step struct {
 	// CrashAfter (call steps of the crash experiment): the datastore dies after this many more durable writes,
 	// i.e. inside the call; 0 = not armed, k = k-1 writes succeed.
 	CrashAfter int `json:"crash_after_writes,omitempty"`
+	// CancelAtRetrieval (call steps): the caller's context is cancelled when the call makes its k-th request to the DA
+	// layer (a node that shuts down, or gives up, while the sequencer scans); 0 = never
+	CancelAtRetrieval int `json:"cancel_at_kth_da_request,omitempty"`
 }
 
 // DefaultLimit is what the harness assumes a request without a size (MaxBytes = 0) admits at least: the model
